@@ -91,7 +91,7 @@ def cache_case(keys, inserts, lookup):
             want_paths[item] = path
     got = []
     for res, o in c.retrieve(dict(q)):
-        got.append((tuple(sorted((k, repr(v.value)) for k, v in res.items())), o))
+        got.append((tuple(sorted((k, repr(getattr(v, 'value', v))) for k, v in res.items())), o))     # (anything else than a wrapped value: shown as it is)
     if sorted(got, key=repr) != sorted(want, key=repr):
         missing = set(want) - set(got)
         kind = 'missing' if missing else ('extra' if set(got) - set(want) else 'multiplicity')
